@@ -16,14 +16,70 @@ def bits_to_f(h):
 TIME_RE = re.compile(r"\b(t|d)=([0-9a-f]+|nan)")
 
 
+def _sample_times(dump):
+    seg = dump[dump.index("T["):dump.index("] C[")]
+    m = re.search(r"sp=(\S+)", seg)
+    if not m or m.group(1) == "-":
+        return []
+    return [bits_to_f(item.split(":")[0]) for item in m.group(1).split(",")]
+
+
+def slider_node_rounding(A, B, k):
+    """finding F24, the defect-aware reading of a `decshift` pair that differs beyond its times: the two dumps differ ONLY in the
+    sample fields of sliders, and for every such slider some sample lookup time - start + i*duration/spans + 5 for a node, start +
+    duration + 5 for the object, evaluated in doubles exactly as the finaliser does, with the slider's stored length as its distance -
+    falls on different sides of a stored sample point's time in the two files although the exact times are shifts of one another
+    (the duration is not a whole number, so (start + k) + d and (start + d) + k round differently). Returns a short description or None."""
+    ha, hb = A[A.index("H["):], B[B.index("H["):]
+    oa, ob = ha.split(" | "), hb.split(" | ")
+    if len(oa) != len(ob):
+        return None
+    spa, spb = _sample_times(A), _sample_times(B)
+    if len(spa) != len(spb):
+        return None
+    strip = lambda o: re.sub(r"\b(ns|s)=\S+", "", TIME_RE.sub("", o))
+    found = []
+    for a, b in zip(oa[1:], ob[1:]):
+        if TIME_RE.sub("", a) == TIME_RE.sub("", b):
+            continue
+        if not (a.startswith("S ") and b.startswith("S ")) or strip(a) != strip(b):
+            return None
+        ma = re.search(r"t=(\S+) .* rc=(\d+) len=(\S+) vel=(\S+)", a)
+        mb = re.search(r"t=(\S+) ", b)
+        if not ma or not mb or ma.group(3) == "-":
+            return None
+        ta, tb = bits_to_f(ma.group(1)), bits_to_f(mb.group(1))
+        spans = float(int(ma.group(2)) + 1)
+        dur = spans * bits_to_f(ma.group(3)) / bits_to_f(ma.group(4))
+        if dur != dur or dur == int(dur):
+            return None
+        looks = [(lambda t, i=i: t + float(i) * dur / spans + 5.0) for i in range(int(spans) + 1)] + [lambda t: (t + dur) + 5.0]
+        hit = None
+        for f in looks:
+            la, lb = f(ta), f(tb)
+            for pa, pb in zip(spa, spb):
+                if (pa <= la) != (pb <= lb):
+                    hit = f"lookup at {la!r} against the sample point at {pa!r}, shifted {lb!r} against {pb!r}"
+                    break
+            if hit:
+                break
+        if not hit:
+            return None
+        found.append(hit)
+    return found[0] if found else None
+
+
 class C15(Property):
     id = "C15"
     # C15Full imports C15Velocity and C15Ieee; chain: C15Velocity ▸ C15ShiftLines ▸ C15Shift (▸ Lemmas/ShiftLaws) ▸ C15Map ▸ C15; C15Ieee ▸ C15Map; all in namespace Rosu.C15
     lean_module = "RosuModel.Props.C15Full"
-    theorem_modules = ['RosuModel.Props.C15Velocity', 'RosuModel.Props.C15Ieee', 'RosuModel.Props.C15IeeeDecoded']   # files whose top-level theorems are all audited
+    theorem_modules = ['RosuModel.Props.C15Velocity', 'RosuModel.Props.C15Ieee', 'RosuModel.Props.C15IeeeDecoded', 'RosuModel.Props.C15ShiftOn', 'RosuModel.Props.C15ShiftLinesOn', 'RosuModel.Props.C15IeeeShift',
+                       ('RosuModel.Lemmas.FloatIntExact', 'Rosu.FIE'), ('RosuModel.Lemmas.ShiftLawsOn', 'Rosu')]   # files whose top-level theorems are all audited
     namespace = "Rosu.C15"
     design_ref = "5.15"
-    required_theorems = ["sorted_perm", "sorted_nondecreasing", "sorted_stable", "postProcessBreaks_length", "orNewCombo_only_sets",
+    required_theorems = [
+        "shiftLawsOn_float_int", "shift_invariant_float_int", "shift_invariant_float_int_erased", "beatmap_shift_invariant_float_int", "slider_samples_shift_witness",
+        "slider_samples_shift_false", "shift_invariant_float_int_statement_false", "shift_invariant_on", "shift_invariant_on_erased", "finish_rel_on","sorted_perm", "sorted_nondecreasing", "sorted_stable", "postProcessBreaks_length", "orNewCombo_only_sets",
                          "skipBreaks_spec", "skipBreaks_stops", "precisionAdjusted_form", "slider_finalized", "applyNodeSamples_length",
                          "finalizeObjects_times", "apply_default_sample", "apply_file_sample", "clampVolume_range",
                          # Props/C15Map.lean
@@ -65,6 +121,18 @@ class C15(Property):
         "finalize_perm": "the decoded list is related position by position (ObjSim) to the stably sorted parsed list: same start time, same kind and line-level fields, "
             "new-combo only raised, slider velocity / node samples (same count) and per-sample defaults changed; that the changed values are the documented ones is "
             "slider_finalized / apply_default_sample, not restated here",
+        "shift_invariant_float_int_erased / shift_invariant_float_int / beatmap_shift_invariant_float_int (the shift clause on IEEE DOUBLES, integer times)":
+            "sixth session: Lemmas/FloatIntExact.lean (add_int_exact_float / sub_int_exact_float: Float.ofInt a ± Float.ofInt b = Float.ofInt (a ± b) below 2^53; lt_ofInt / le_ofInt / eq_ofInt / "
+            "totalKey_lt_ofInt: comparisons and the total_cmp key of Float.ofInt values are those of the integers; isNaN_ofInt), Lemmas/ShiftLawsOn.lean (the shift laws restricted to a set S of times, "
+            "membership carried as explicit hypotheses CPIn / PendingIn / ObjIn because no bounded set is closed under +; lookup_shift_on, add*_shift_on, flushInto_shift_on), Props/C15ShiftOn.lean, "
+            "Props/C15ShiftLinesOn.lean, Props/C15IeeeShift.lean: shiftLawsOn_float_int - for |k| < 2^51 the laws HOLD of the driver's Float on IntTime = {Float.ofInt z : |z| < 2^51}, with no hypothesis "
+            "about the arithmetic; hence for files whose time fields are such integers and whose derived lookup times stay in range (ObjIn: start, start + 5, start + duration, start + duration + 5 for "
+            "circles / spinners / holds) shifting by k shifts all control points, lookups, object times, the sort order, forced new combos, breaks, and leaves slider velocity, curve, error outcomes and "
+            "every circle / spinner / hold entirely unchanged: without sliders the finalised map is exactly the shifted one (shift_invariant_float_int, shift_invariant_float_int_finish, "
+            "beatmap_shift_invariant_float_int); with sliders everything except each slider's node samples and samples (shift_invariant_float_int_erased). THE REMAINING CLAUSE IS FALSE in IEEE doubles "
+            "and is refuted in the kernel: slider_samples_shift_witness / slider_samples_shift_false / shift_invariant_float_int_statement_false - a slider at 1000 with duration 1 - 2^-45 ms and a sample "
+            "point at 1006 resolves volume 30, shifted by -1000 it resolves volume 100, because fl(1000 + d) = 1001 and fl(0 + d) = d (add_right_comm_nonint_false). Replayed on the real crate by the "
+            "`decshift` oracle: finding F24 (corpus/C15/f24.case)",
         "shift_invariant": "proved as a LAW-DEPENDENT theorem, not for IEEE floats. Hypothesis structure ShiftLaws F k (Lemmas/ShiftLaws.lean): x ↦ x + k is strictly monotone "
             "for the total_cmp key and for IEEE <, keeps NaN-ness, (a+k)−(b+k) = a−b, (a+k)+d = (a+d)+k. Under it: (1) finish_shift / finish_rel / beatmap_finish_shift — the "
             "finalisers commute with adding k to every stored time (stable sort, post_process_breaks, timing / difficulty / sample point lookups via lookup_shift, node and object "
@@ -141,6 +209,17 @@ class C15(Property):
             a = gen_map(_r.Random(seed), hostile=0, chronological=True, tshift=0, integer_times=True, alien=False)
             b = gen_map(_r.Random(seed), hostile=0, chronological=True, tshift=k, integer_times=True, alien=False)
             cases.append(Case(f"decshift {k} {hexs(chr(10).join(a).encode())} {hexs(chr(10).join(b).encode())}", tags=("shift",)))
+        # finding F24: a slider whose end (start + duration, duration a hair below a whole number) rounds differently under the shift,
+        # with a sample point exactly 5 ms behind the rounded end
+        for _ in range(12 if tier == "quick" else 400):
+            t0 = rng.choice([1000, 1000, 2000, 4096, 100000, rng.randint(1, 10 ** 6)])
+            k = rng.choice([-t0, -t0, 1000 - t0, rng.randint(-10 ** 6, 10 ** 6)])
+            L = rng.choice(["0.99999999999995", "0.9999999999999", "1.99999999999995", "0.5", "1"])
+            def f(sh):
+                return chr(10).join(["osu file format v14", "", "[General]", "Mode: 0", "", "[Difficulty]", "SliderMultiplier:1", "", "[TimingPoints]",
+                                     f"{t0 - 1000 + sh},100,4,1,0,100,1,0", f"{t0 + (2 if L.startswith('1.9') else 1) + 5 + sh},-100,4,2,0,30,0,0", "", "[HitObjects]",
+                                     f"100,100,{t0 + sh},2,0,L|103:100,1,{L}", ""])
+            cases.append(Case(f"decshift {k} {hexs(f(0).encode())} {hexs(f(k).encode())}", tags=("shift-slider-end-rounding",)))
         return cases
 
     def py_oracle(self, case, impl_out):
@@ -156,7 +235,8 @@ class C15(Property):
         ta = TIME_RE.findall(A[A.index("H["):])
         tb = TIME_RE.findall(B[B.index("H["):])
         if TIME_RE.sub("", A[A.index("H["):]) != TIME_RE.sub("", B[B.index("H["):]):
-            return "FAIL objects differ beyond their times"
+            why = slider_node_rounding(A, B, k)
+            return "FAIL objects differ beyond their times" + (f" explained=slider-node-time-rounding {why}" if why else "")
         for (ka, va), (kb, vb) in zip(ta, tb):
             fa, fb = bits_to_f(va), bits_to_f(vb)
             want = fa + k if ka == "t" else fa
@@ -202,6 +282,8 @@ class C15(Property):
     def known(self, case, out, findings):
         for f in findings:
             if f.get("predicate") == "breaks-not-in-end-time-order" and "explained=breaks-not-in-end-time-order" in out:
+                return f["id"]
+            if f.get("predicate") == "slider-node-time-rounding" and "explained=slider-node-time-rounding" in out:
                 return f["id"]
         return None
 
